@@ -222,6 +222,14 @@ for t in ("see\thttp://example.org", "\u00a0http://e.org x", "* a\thttps://e.org
           "<pre>[[a|b<nowiki/>c]] {{{1|[d]}}}</pre>", '{| class="{{foo|[x]}}"\n| c\n|}'):
     for o in OPTS_ALL if "OPTS_ALL" in globals() else ({}, {"pre_expand": True}, {"expand_all": True}):
         run(t, o, "fixed-documents")
+# tags with quoted attribute values (either kind of quote, apostrophes inside the value) in every line context: plain
+# text, headings of all levels, list items, table cells and captions, link text
+TAGS_Q = ["<span id='x'>T</span>", '<span title="it\'s">T</span>', "<b class='a b'>x</b> ''i''", "<ref name='n'/>", "<div style=\"a:'b'\">d</div>"]
+for tq in TAGS_Q:
+    for form in ("%s", "== %s ==", "=== %s ===", "====== %s ======", "* %s", "{|\n| %s\n|}", "{|\n|+ %s\n|}", "[[L|%s]]", "; %s : d",
+                 "== a %s b ==\n%s"):
+        for o in ({}, {"pre_expand": True}, {"expand_all": True}):
+            run(form.replace("%s", tq), o, "quoted-tag-attributes")
 # diagnostics raised while a heading is still open
 for t in ("== <b>Etymology ==", "=== Noun</span> ===\ntext </b>", "== a\n</div>", "==<i>x==\n{{a|"):
     run(t, {}, "open-heading-diagnostics")
